@@ -66,13 +66,15 @@ Fixpoint build (r : raw) : option bfn :=
 End Build.
 (* the executable run: one call of Theory.translate per horizon, with the events it adds to the log and the pending list it leaves *)
 Definition new_events (old new : st nat) : list (event nat) := rev (firstn (List.length (log nat new) - List.length (log nat old)) (log nat new)).
-Fixpoint run_h (fuel h : nat) (steps : list (list (nat * bfn))) (s : st nat) : option (list (list (event nat) * list (nat * bfn))) :=
+(* the literal cached for every root after the call: what the literals of the ground theory atoms are tied to (Proofs/TheoryAtomsProofs.v: link) *)
+Definition root_lits (s : st nat) (roots : list (nat * bfn)) : list (option (lit nat)) := map (fun r => option_map fst (lookup nat Nat.eq_dec s (snd r) (fst r))) roots.
+Fixpoint run_h (fuel h : nat) (steps : list (list (nat * bfn))) (s : st nat) : option (list ((list (event nat) * list (nat * bfn)) * list (option (lit nat)))) :=
   match steps with
   | [] => Some []
   | roots :: rest =>
       match theory_translate nat Nat.eq_dec fuel h roots s with
       | None => None
-      | Some s' => match run_h fuel (S h) rest s' with None => None | Some r => Some ((new_events s s', pending nat s') :: r) end
+      | Some s' => match run_h fuel (S h) rest s' with None => None | Some r => Some ((new_events s s', pending nat s', root_lits s' roots) :: r) end
       end
   end.
 Definition run_model (fuel : nat) (steps : list (list (nat * bfn))) := run_h fuel 0 steps (init nat).
